@@ -1113,3 +1113,117 @@ Proof.
   { unfold walk_opts in Ho. rewrite !andb_true_iff, !negb_true_iff in Ho. tauto. }
   rewrite <- (app_nil_r (encode v)) at 1. exact (walk_refines_exact o v d n [] Hvm Hwd Hwr Hw Hc Hdw Hd Hs).
 Qed.
+
+(* ------------------------------------------------------------------ the corollaries for all modelled options (spec json_ofw) *)
+Lemma json_ofw_not_exc o v : forall d e, json_ofw o d v <> TExc e.
+Proof.
+  intros d e H. destruct v; cbn [json_ofw] in H; try discriminate;
+  repeat match type of H with
+  | match ?x with _ => _ end = _ => destruct x; try discriminate
+  | (if ?b then _ else _) = _ => destruct b; try discriminate
+  end.
+Qed.
+
+Lemma zero_bytes d : jexp_bytes (zero_of d) = true.
+Proof.
+  destruct d as [t|b|fs|dk dv|s de]; try reflexivity.
+  cbn [zero_of]. destruct (t =? T_BOOL); [reflexivity|]. destruct (t =? T_DOUBLE); reflexivity.
+Qed.
+
+Lemma unset_walk_bytes o fs : desc_ok (DStruct fs) = true -> forall l p us, (forall f, In f l -> In f fs) ->
+  unset_walk o l p = inl us -> forallb (fun m => jbytes_okb (fst m) && jexp_bytes (snd m)) us = true.
+Proof.
+  intros Hd l p us Hl H. apply forallb_forall. intros m Hm.
+  destruct (unset_walk_sound o l p us H m Hm) as (f & Hf & -> & _).
+  cbn [fst snd]. rewrite zero_bytes, andb_true_r.
+  cbn [desc_ok] in Hd. rewrite forallb_forall in Hd. specialize (Hd f (Hl f Hf)). apply andb_true_iff in Hd. exact (proj1 Hd).
+Qed.
+
+Theorem json_ofw_bytes : forall o v d e, wf v = true -> desc_ok d = true -> json_ofw o d v = TOk e -> jexp_bytes e = true.
+Proof.
+  intros o. induction v as [b | z | z | z | z | z | s | vs IH | kt vt es IH | et es IH | et es IH] using tval_ind';
+    intros d e Hw Hd H; cbn [json_ofw] in H.
+  - inversion H; reflexivity.
+  - inversion H; reflexivity.
+  - inversion H; reflexivity.
+  - inversion H; reflexivity.
+  - inversion H. destruct (o_int642string o); reflexivity.
+  - inversion H; reflexivity.
+  - pose proof (wf_string_bytes s Hw) as Hs.
+    destruct d as [| [|] | | |]; inversion H; subst; cbn [jexp_bytes]; try exact Hs.
+    destruct (o_no_base64 o); [exact Hs|]. apply b64_encode_bytes. apply bytes_okb_Forall.
+    cbn in Hw. apply andb_true_iff in Hw. exact (proj1 Hw).
+  - destruct d as [| | fs | |]; try discriminate.
+    match type of H with match members_of ?l with _ => _ end = _ => destruct (members_of l) as [ms|] eqn:E end; [|discriminate].
+    destruct (unset_members o fs (map fst vs)) as [us|] eqn:Eu; [|discriminate]. inversion H; subst.
+    cbn [jexp_bytes]. rewrite forallb_app. apply andb_true_iff. split.
+    + apply forallb_Forall_true.
+      apply (members_of_forall _ ms (fun k e => jbytes_okb k && jexp_bytes e = true) E).
+      intros k e' Hin. apply in_map_iff in Hin. destruct Hin as (iv & Hg & Hiv).
+      destruct (find_field fs (fst iv)) as [f|] eqn:Ef; [|destruct (o_disallow_unknown o); discriminate].
+      pose proof (find_field_in _ _ _ Ef) as Hfin.
+      pose proof Hd as Hd'. cbn [desc_ok] in Hd'. rewrite forallb_forall in Hd'. specialize (Hd' f Hfin). apply andb_true_iff in Hd'. destruct Hd' as [Hk Hdf].
+      pose proof (wf_struct_fields vs Hw iv Hiv) as Hwx.
+      rewrite Forall_forall in IH.
+      destruct (o_value_mapping o && f_jsconv (fst f)).
+      * destruct (jsconv o (snd iv)) as [e1|e1|c1] eqn:Ej; inversion Hg; subst.
+        rewrite Hk. exact (jsconv_bytes o _ _ Hwx Ej).
+      * destruct (json_ofw o (snd f) (snd iv)) as [e1|e1|c1] eqn:Ej; inversion Hg; subst.
+        rewrite Hk. exact (IH iv Hiv (snd f) e' Hwx Hdf Ej).
+    + exact (unset_walk_bytes o fs Hd (sort_flds fs) (map fst vs) us (In_sort_flds fs) Eu).
+  - destruct d as [| | | dk dv |]; try discriminate.
+    match type of H with match keyed ?a ?b with _ => _ end = _ => destruct (keyed a b) as [ms|] eqn:E end; [|discriminate].
+    inversion H; subst. cbn [jexp_bytes]. apply forallb_Forall_true.
+    cbn [desc_ok] in Hd. apply andb_true_iff in Hd. destruct Hd as [Hdk Hdv].
+    rewrite Forall_forall in IH.
+    apply (keyed_forall _ _ ms (fun k e => jbytes_okb k && jexp_bytes e = true) E).
+    intros k Hk e' He'.
+    apply in_map_iff in Hk. destruct Hk as (en & Hkey & Hen).
+    apply in_map_iff in He'. destruct He' as (en' & Hval & Hen').
+    destruct (wf_map_entries _ _ _ Hw en Hen) as [Hwk _].
+    destruct (wf_map_entries _ _ _ Hw en' Hen') as [_ Hwv].
+    rewrite (key_of_bytes o _ _ Hwk Hkey).
+    exact (proj2 (IH en' Hen') dv e' Hwv Hdv Hval).
+  - destruct d as [| | | | s de]; try discriminate.
+    destruct (all_ok (map (json_ofw o de) es)) as [xs|] eqn:E; [|discriminate]. inversion H; subst.
+    cbn [jexp_bytes]. apply forallb_Forall_true.
+    apply (all_ok_forall _ xs (fun e => jexp_bytes e = true) E).
+    intros e' He'. apply in_map_iff in He'. destruct He' as (y & Hy & Hin).
+    rewrite Forall_forall in IH. exact (IH y Hin de e' (wf_set_elems _ _ Hw y Hin) Hd Hy).
+  - destruct d as [| | | | s de]; try discriminate.
+    destruct (all_ok (map (json_ofw o de) es)) as [xs|] eqn:E; [|discriminate]. inversion H; subst.
+    cbn [jexp_bytes]. apply forallb_Forall_true.
+    apply (all_ok_forall _ xs (fun e => jexp_bytes e = true) E).
+    intros e' He'. apply in_map_iff in He'. destruct He' as (y & Hy & Hin).
+    rewrite Forall_forall in IH. exact (IH y Hin de e' (wf_list_elems _ _ Hw y Hin) Hd Hy).
+Qed.
+
+Theorem walk_error_iff_w o v d n r :
+  wf v = true -> conforms v d = true -> desc_wf d = true -> (depth v <= n)%nat -> (depth v <= max_skip_depth)%nat ->
+  (t2j_walk n o d (encode v ++ r) = None <->
+   (exists c, json_ofw o d v = TErr c) \/ (exists e, json_ofw o d v = TOk e /\ jexp_finite e = false)).
+Proof.
+  intros Hw Hc Hdw Hd Hs. rewrite (walk_refines_exact_w o v d n r Hw Hc Hdw Hd Hs).
+  unfold walk_res, spec_text. destruct (json_ofw o d v) as [e|e|c] eqn:E.
+  - destruct (jexp_finite e) eqn:Ef; split.
+    + discriminate.
+    + intros [[c H]|[e' [H1 H2]]]; [discriminate|]. inversion H1; subst. rewrite Ef in H2. discriminate.
+    + intros _. right. exists e. split; [reflexivity|exact Ef].
+    + reflexivity.
+  - exfalso. exact (json_ofw_not_exc o v d e E).
+  - split; [intros _; left; exists c; reflexivity | reflexivity].
+Qed.
+
+Theorem walk_output_valid_w o v d n r txt r' :
+  wf v = true -> conforms v d = true -> desc_wf d = true -> desc_ok d = true ->
+  (depth v <= n)%nat -> (depth v <= max_skip_depth)%nat ->
+  t2j_walk n o d (encode v ++ r) = Some (txt, r') ->
+  exists e, json_ofw o d v = TOk e /\ jexp_finite e = true /\
+            txt = json_print (to_json e) /\ json_parse txt = Some (to_json e) /\ r' = r.
+Proof.
+  intros Hw Hc Hdw Hdo Hd Hs H. rewrite (walk_refines_exact_w o v d n r Hw Hc Hdw Hd Hs) in H.
+  unfold walk_res, spec_text in H. destruct (json_ofw o d v) as [e|e|c] eqn:E; try discriminate.
+  destruct (jexp_finite e) eqn:Ef; [|discriminate]. inversion H; subst.
+  exists e. split; [reflexivity|]. split; [exact Ef|]. split; [reflexivity|]. split; [|reflexivity].
+  apply model_text_parses. exact (json_ofw_bytes o v d e Hw Hdo E).
+Qed.
